@@ -257,9 +257,11 @@ pub fn gen_abuse(rng: &mut Prng, h2: &mut H2Knobs, tier: Tier) -> ClientAbuse {
                     let t = h2.continuation;
                     let c = *rng.pick(&[1u32, t - 1, t, t + 1, t + 2, 3 * t]);
                     let finish = rng.below(4) != 0;
-                    ca.kind = Kind::ContFlood { count: c, frag_len: *rng.pick(&[0u32, 0, 20, 200]), finish };
+                    // (own PRNG stream: the plans drawn before this variant existed stay what they were)
+                    let prelude = if c <= t && finish && Prng::derive(((c as u64) << 40) ^ ((h2.rst_window as u64) << 24) ^ ((h2.settings_window as u64) << 12) ^ (h2.glitch as u64 * 31 + h2.header_list as u64 + h2.max_streams as u64 * 7), "c15/cont_prelude").below(2) == 0 { t } else { 0 };
+                    ca.kind = Kind::ContFlood { count: c, frag_len: *rng.pick(&[0u32, 0, 20, 200]), finish, prelude };
                     ca.rate = burst_rate(rng, c);
-                    ca.feature = format!("flood/continuation/{}{}", if c > t { "above" } else if c == t { "at" } else { "below" }, if finish { "" } else { "/unfinished" });
+                    ca.feature = format!("flood/continuation/{}{}{}", if c > t { "above" } else if c == t { "at" } else { "below" }, if finish { "" } else { "/unfinished" }, if prelude > 0 { "/after_stream_error_block" } else { "" });
                 }
                 _ => {
                     let cap = h2.abusive_rst.min(h2.rst_window / 2);
